@@ -36,8 +36,9 @@ def schema():
 
 
 # ------------------------------------------------------------------ reference depth
-def ref_depths(text, variables, mode="spec"):
+def ref_depths(text, variables, mode="spec", per_op=None):
     """-> {operation index: depth} by the reference model; mode selects explanatory variants"""
+    cur_vars = [dict(variables)]
     tree = R.ref_parse(text, "doc", False, False)[1]
     frags = {d["name"]["value"]: d for d in tree["definitions"] if d["__kind__"] == "FragmentDefinition"}
 
@@ -47,7 +48,7 @@ def ref_depths(text, variables, mode="spec"):
             if n not in ("skip", "include"):
                 continue
             v = d["arguments"][0]["value"]
-            cond = variables[v["name"]["value"]] if v["__kind__"] == "Variable" else v["value"]
+            cond = cur_vars[0][v["name"]["value"]] if v["__kind__"] == "Variable" else v["value"]
             if (n == "skip" and cond) or (n == "include" and not cond):
                 return True
         return False
@@ -97,6 +98,9 @@ def ref_depths(text, variables, mode="spec"):
     out = {}
     for i, d in enumerate(tree["definitions"]):
         if d["__kind__"] == "OperationDefinition":
+            # effective values: the request's, and for variables it leaves out the defaults *this* operation declares
+            cur_vars[0] = dict(variables)
+            cur_vars[0].update((per_op or {}).get(d["name"]["value"] if d["name"] else "", {}))
             out[i] = max(0, levels([(d["selection_set"]["selections"], frozenset())], top=True) - 1)
     return out, tree
 
@@ -204,8 +208,16 @@ def cases(draw):
             decl[v] = "Boolean = %s" % ("false" if g.vars[v] else "true")
     vd = ", ".join("$%s: %s" % (v, decl[v]) for v in g.vars)
     parts = []
+    per_op = {}
     for name, body in ops:
-        head = ("query %s%s " % (name or "", "(%s)" % vd if vd else "")) if (name or vd) else ""
+        vd_op = vd
+        if omit and len(ops) > 1 and draw(st.booleans()):
+            # this operation declares other defaults for the variables the request leaves out: each operation is measured
+            # with its own
+            mine = {v: draw(st.booleans()) for v in omit}
+            per_op[name or ""] = mine
+            vd_op = ", ".join("$%s: %s" % (v, (decl[v].split("=")[0] + "= " + ("true" if mine[v] else "false")) if v in mine else decl[v]) for v in g.vars)
+        head = ("query %s%s " % (name or "", "(%s)" % vd_op if vd_op else "")) if (name or vd_op) else ""
         parts.append("%s{ %s }" % (head, " ".join(body)))
     defs = parts + g.frags
     order = draw(st.permutations(range(len(defs))))
@@ -213,7 +225,7 @@ def cases(draw):
     more = []
     if g.vars and draw(st.booleans()):
         more = [{v: draw(st.booleans()) for v in g.vars} for _ in range(draw(st.integers(1, 2)))]
-    return {"text": text, "variables": g.vars, "omit": omit, "more_variables": more, "limit": draw(st.integers(0, 10)),
+    return {"text": text, "variables": g.vars, "omit": omit, "per_op": per_op, "more_variables": more, "limit": draw(st.integers(0, 10)),
             "operation_name": draw(st.sampled_from([None, None, "A", "B", "Nope"])),
             "via": draw(st.sampled_from(["direct", "validate_ast"]))}
 
@@ -230,7 +242,7 @@ def check(case):
         if shared is None:
             shared = {}
             check_one(case, shared)          # first use of the shared rule: the case's own variables
-        c2 = dict(case, variables=mv, omit=[])
+        c2 = dict(case, variables=mv, omit=[], per_op={})
         v2, _ = check_one(c2, shared)
         if v2:
             fresh, _ = check_one(c2, None)
@@ -245,7 +257,7 @@ def check_one(case, shared):
     from py_gql.utilities import MaxDepthValidationRule
     from py_gql.validation import validate_ast
     text, variables = case["text"], case["variables"]
-    depths, tree = ref_depths(text, variables)
+    depths, tree = ref_depths(text, variables, per_op=case.get("per_op"))
     considered = {}
     for i, d in depths.items():
         op = tree["definitions"][i]
@@ -295,7 +307,7 @@ def check_one(case, shared):
 def _why(case, considered, kind):
     """explanatory variant: which simplification of the model reproduces the library's verdict"""
     for mode in ("top-level-fragments-ignored", "merged-key-first-field-only"):
-        alt, tree = ref_depths(case["text"], case["variables"], mode)
+        alt, tree = ref_depths(case["text"], case["variables"], mode, per_op=case.get("per_op"))
         altc = {}
         for i, d in alt.items():
             op = tree["definitions"][i]
